@@ -377,12 +377,16 @@ Copyable == { "block", "array", "frame", "tag", "mtag", "section", "property" }
 Closed(S) == \A x \in S : /\ \A l \in ListNames : \A i \in 1..Len(rec[x].ls[l]) : rec[x].ls[l][i] \in S
                           /\ \A r \in RoleNames : rec[x].rl[r] # None => rec[x].rl[r] \in S
 RankIn(x, S) == Cardinality({ y \in S : y <= x })
+\* what a copy duplicates: the whole owned subtree, or - non-recursive section copy - the section with its properties
+CopySet(src, deep) == IF deep THEN Sub(src)
+                      ELSE {src} \cup { x \in objs : rec[x].owner = src /\ rec[x].kind = "property" }
 
-Copy(src, dest, n, keepId) ==
-    LET S == Sub(src)
+Copy(src, dest, n, keepId, deep) ==
+    LET S == CopySet(src, deep)
         k == Kind(src)
         new(x) == next + RankIn(x, S) - 1
-        a == [name |-> "Copy", kind |-> k, src |-> src, dest |-> dest, n |-> n, keep |-> keepId, new |-> next, out |-> "ok"]
+        a == [name |-> "Copy", kind |-> k, src |-> src, dest |-> dest, n |-> n, keep |-> keepId, deep |-> deep,
+              new |-> next, out |-> "ok"]
         cp(x) == [rec[x] EXCEPT !.owner = IF x = src THEN dest ELSE new(rec[x].owner),
                                !.name = IF x = src THEN n ELSE rec[x].name,
                                !.eid = IF keepId THEN rec[x].eid ELSE new(x),
@@ -390,7 +394,8 @@ Copy(src, dest, n, keepId) ==
                                !.rl = [r \in RoleNames |-> IF rec[x].rl[r] = None THEN None ELSE new(rec[x].rl[r])]]
     IN
     /\ CanStep /\ src \in objs /\ k \in Copyable /\ dest \in objs \cup {FILE} /\ Kind(dest) \in OwnerKinds(k)
-    /\ dest \notin S
+    /\ (~deep => k = "section")
+    /\ dest \notin Sub(src)
     /\ IF NameTaken(dest, k, n) THEN "NameExists" \in Faults /\ Refuse(a, "refused:NameExists")
        ELSE /\ Closed(S) /\ next + Cardinality(S) - 1 <= MaxObj
             /\ \A kk \in KindSet : Count(kk) + Cardinality({ x \in S : rec[x].kind = kk }) <= Limit[kk]
@@ -400,7 +405,8 @@ Copy(src, dest, n, keepId) ==
             /\ next' = next + Cardinality(S)
             /\ UNCHANGED << clock, auto, fts >> /\ Log(a)
 
-CopyOps == \E src \in objs, dest \in objs \cup {FILE}, n \in Names, keep \in CopyKeep : Copy(src, dest, n, keep)
+CopyOps == \E src \in objs, dest \in objs \cup {FILE}, n \in Names, keep \in CopyKeep, deep \in BOOLEAN :
+               Copy(src, dest, n, keep, deep)
 
 (***************************************************************************)
 (* specification                                                           *)
@@ -498,11 +504,12 @@ ListedAttrStamps == [][(auto /\ IsAct("SetAttr") /\ ~Refused /\ Kind(act'.o) # "
     rec'[act'.o].u = clock]_vars
 
 
-\* C20: a copy is complete (same content, recursively), its internal links point to the copies,
+\* C20: a copy is complete (same content, recursively - or, for a non-recursive section copy, the section and its
+\* properties and nothing below), its internal links point to the copies,
 \* nothing else changes, and the ids are kept or all fresh
 CopyComplete == [][(IsAct("Copy") /\ ~Refused) =>
     LET src == act'.src
-        S == Sub(src)
+        S == CopySet(src, act'.deep)
         new(x) == act'.new + RankIn(x, S) - 1 IN
     /\ objs' = objs \cup { new(x) : x \in S }
     /\ \A o \in objs : rec'[o] = rec[o]                                    \* the source and everything else: untouched
